@@ -86,9 +86,10 @@ func (w *VWorld) Destroy() {
 
 // VHist is one history being replayed on a world, on fresh names.
 type VHist struct {
-	W   *VWorld
-	Tag string
-	M   *model.World
+	W       *VWorld
+	Tag     string
+	M       *model.World
+	LastAck string // extra data the crash child appends to the acknowledgement line of the last op
 }
 
 func (w *VWorld) NewHist() *VHist {
